@@ -81,6 +81,10 @@ impl<'a, C: Col> Iterator for MapCol<'a, C> {
     fn nth(&mut self, n: usize) -> Option<C> {
         self.0.nth(n).map(C::from_idx)
     }
+    #[inline]
+    fn size_hint(&self) -> (usize, Option<usize>) {
+        self.0.size_hint()
+    }
 }
 
 /// packed (r,g,b) of colour index `i` in the given format: what the controller must decode
